@@ -160,6 +160,22 @@ def specs(draw, tier):
                     remap(v)
 
         remap(spec["ops"])
+    if machine == "emulsion" and draw(st.integers(0, 3)) == 2:
+        # the whole history far away from the origin (coordinates of 1e6 ... 1e8 with sizes and separations of order one)
+        far = [float(draw(st.sampled_from([-1.0, 1.0])) * 10.0 ** draw(st.integers(6, 8)) * draw(st.sampled_from([1.0, 0.37, 2.9]))) for _ in range(3)]
+        spec["far"] = far
+
+        def shift(o):
+            if isinstance(o, dict):
+                if "radius" in o and "position" in o:
+                    o["position"] = [float(x + f) for x, f in zip(o["position"], far)]
+                for v in o.values():
+                    shift(v)
+            elif isinstance(o, list):
+                for v in o:
+                    shift(v)
+
+        shift(spec["ops"])
     return spec
 
 
@@ -337,7 +353,10 @@ class C20(Property):
                         keep.append(j0)
                         j0 += 1
                     md = op["md"]
-                    sl = 1e-9 * (1 + max([abs(x) for p in P for x in p] + Rr + [0.0]))
+                    # slack: 1e-9 of the sizes / separations involved plus the rounding of a coordinate difference
+                    cmax = max([abs(x) for p in P for x in p] + [0.0])
+                    spread = max([float(np.abs(p - P[0]).max()) for p in P] + [0.0])
+                    sl = 1e-9 * (1 + spread + max(Rr + [0.0])) + 64 * np.finfo(float).eps * cmax
                     surf = lambda i, j: float(np.linalg.norm(P[i] - P[j])) - Rr[i] - Rr[j]
                     for a_ in range(len(keep)):
                         for b_ in range(a_ + 1, len(keep)):
